@@ -7,6 +7,7 @@ toolchain go1.23.5
 require (
 	github.com/bytecodealliance/wasmtime-go v0.37.0
 	github.com/cbergoon/merkletree v0.2.0
+	github.com/coreos/etcd v3.3.18+incompatible
 	github.com/ethereum/go-ethereum v1.10.8
 	github.com/libp2p/go-libp2p-core v0.5.6
 	github.com/meshplus/bitxhub v0.0.0
@@ -28,7 +29,6 @@ require (
 	github.com/binance-chain/tss-lib v1.3.3-0.20210411025750-fffb56b30511 // indirect
 	github.com/btcsuite/btcd v0.21.0-beta // indirect
 	github.com/cespare/xxhash/v2 v2.1.1 // indirect
-	github.com/coreos/etcd v3.3.18+incompatible // indirect
 	github.com/coreos/go-semver v0.3.0 // indirect
 	github.com/coreos/go-systemd v0.0.0-20190719114852-fd7a80b32e1f // indirect
 	github.com/coreos/pkg v0.0.0-20180928190104-399ea9e2e55f // indirect
